@@ -59,9 +59,11 @@ def run(ctx, spec, rng):
 def _solve(ctx, fn, *a, **k):
     ctx.evals["solver-call"] += 1
     v = ctx.call(fn, *a, solver=True, **k)
-    if v is FAILED or v is None or not np.isfinite(v):
-        if v is not FAILED:
-            ctx.solver_fail["non-finite"] += 1
+    if v is FAILED:
+        return None
+    if v is None or not np.isfinite(v):
+        # an infeasible / unbounded program (value None or +-inf) on a valid instance is a wrong answer, not a solver failure
+        ctx.fail("solver-call", "non-finite-value:" + getattr(fn, "__name__", "?"), {"value": repr(v), "args": a})
         return None
     return float(np.real(v))
 
